@@ -258,6 +258,29 @@ func (m *MonC19) AfterBlock(w *World, b *BlockCtx) {
 				switchedOff = true // even if it is switched on again later in the block
 			}
 		}
+		// switched off for absence in this block's BeginBlock (13th miss in the 24-block window), even if
+		// its owner switches it on again later in the block
+		if v := b.Prev.Vals[pk]; v != nil && v.AbsentTimes != nil && !gracePeriod(w, b.Height) {
+			bits := v.AbsentTimes.String()
+			if i := strings.Index(bits, ":"); i >= 0 {
+				bits = strings.TrimSuffix(bits[i+1:], "}")
+			}
+			missed := strings.Count(bits, "x")
+			if idx := int(h % 24); idx < len(bits) && bits[idx] == 'x' {
+				missed-- // this height's slot is overwritten: the old miss in it is forgotten
+			}
+			absentNow := false
+			for _, vt := range b.Req.Votes {
+				var a types.TmAddress
+				copy(a[:], vt.Validator.Address)
+				if a == TmAddr(pk) && !vt.SignedLastBlock {
+					absentNow = true
+				}
+			}
+			if absentNow && missed+1 > 12 {
+				switchedOff = true
+			}
+		}
 		if cc == nil || cc.Status != 2 || switchedOff {
 			dropped[pk] = true
 			if s, ok := pw[pk]; ok {
